@@ -365,6 +365,10 @@ def check_c13(pid, tier, t0, replay_key):
     findings += f
     obl += o
     st.update(s2)
+    f, o, s2 = e5.rule_l6(P)
+    findings += f
+    obl += o
+    st.update(s2)
     import e7
     f, o, s, s2 = e7.rule_g1(P, tables)
     findings += f
